@@ -1482,9 +1482,13 @@ class Interp:
         base.update(env)
         st.push_frame(base, {'module': '$spec', 'cls': None, 'qual': '<spec>', 'closure': closure})
         n_alts, n_trail = len(st.alts), st.tpos
+        from . import state as _state
+        saved_pure = _state.PURE_CONTEXT[0]
+        _state.PURE_CONTEXT[0] = True
         try:
             v = self.eval(node, st)
         finally:
+            _state.PURE_CONTEXT[0] = saved_pure
             st.pop_frame()
         if len(st.alts) != n_alts or st.tpos != n_trail:
             # a contract expression must denote one value: an evaluation that forks would silently drop alternatives
